@@ -452,7 +452,7 @@ pub fn scenarios(tier: Tier) -> Vec<Scenario> {
             let name = format!("{:?}", r);
             let mut cfg = sched_cfg();
             cfg.yield_alts = cfg!(feature = "inproc");
-            v.push(Scenario::new(name, cfg, if tier.is_quick() { 3 } else { 4 }, move || race_body(&r)));
+            v.push(Scenario::new(name, cfg, if tier.is_quick() { 3 } else { 5 }, move || race_body(&r)));
         }
     }
     v
